@@ -752,6 +752,8 @@ func genEcho(r *rand.Rand, class bool) kase {
 	return k
 }
 
+var longDigits = regexp.MustCompile(`[0-9]{4,}`)
+
 // malformed stream: arbitrary short byte strings over an alphabet rich in %, \, digits, flags
 func genMalformed(r *rand.Rand) kase {
 	alpha := []string{"%", "%", "\\", "0", "1", "5", "8", "9", "-", "+", " ", "#", ".", "*", "s", "b", "c", "d", "i", "u", "o", "x", "X",
@@ -761,6 +763,8 @@ func genMalformed(r *rand.Rand) kase {
 	for i := 0; i < n; i++ {
 		f += hx.Pick(r, alpha)
 	}
+	// widths stay below 1000: a 6-digit width is a megabyte of padding per case (and the Coq case file is a literal)
+	f = longDigits.ReplaceAllStringFunc(f, func(d string) string { return d[:3] })
 	na := r.IntN(4)
 	var args []string
 	for i := 0; i < na; i++ {
